@@ -109,3 +109,13 @@ def coord_obligations():
     """returns list of (name, ok, detail)"""
     return tie("CoordSrc", os.path.join("verde", "coordinates.py"), COORD_FUNCS, "pylite_coordinates.v.tmpl",
                COORD_THEOREMS)
+
+
+LON_FUNCS = ["_check_geographic_region", "_check_geographic_coordinates", "longitude_continuity"]
+LON_THEOREMS = ["src_check_geographic_region_eq", "src_longitude_continuity_region_eq"]
+LON_IMPORTS = "From Coq Require Import ZifyBool.\nFrom Verde Require Import Model.Longitude Proofs.PyLiteBridge."
+
+
+def lon_obligations():
+    return tie("LonSrc", os.path.join("verde", "coordinates.py"), LON_FUNCS, "pylite_longitude.v.tmpl",
+               LON_THEOREMS, LON_IMPORTS)
